@@ -405,7 +405,46 @@ def long_table_cases(ctx):
                 i += 1
 
 
+def thread_cases(ctx):
+    out = []
+    for k, n in enumerate((4, 5, 7, 9, 12, 16, 33)):
+        r = ctx.sub_rng('thr', ctx.shard, n)
+        out.append(tables.make_case(r, n, tables.PLACEMENTS[
+            (k + ctx.shard) % len(tables.PLACEMENTS)], 'wide', 'sorted'))
+    return out
+
+
+def check_threads(ctx, cases=None, rounds=4):
+    """A correlation is a function of its data: the same objects evaluated
+    from several threads at once -- including each object's very first
+    evaluation -- must give what fresh objects of the same data give when
+    evaluated alone."""
+    from vmon.core import threads as TH
+    if cases is None:
+        cases = thread_cases(ctx)
+
+    def make_jobs():
+        jobs = []
+        for ci, case in enumerate(cases):
+            ts = sorted(case['Ts'])
+            probes = [ts[0], (ts[0] + ts[1]) / 2.0, ts[len(ts) // 2],
+                      (ts[-2] + ts[-1]) / 2.0, ts[-1]]
+            for surface in ('raw', 'incomplete'):
+                obj = build(case, surface)
+                for name in ('get_SoR', 'get_HoRT', 'get_GoRT', 'get_CpoR'):
+                    for T in probes:
+                        def thunk(f=getattr(obj, name), T=T):
+                            return repr(float(f(T)))
+                        jobs.append(((ci, surface, name, T), thunk))
+        return jobs
+    res = TH.stress(make_jobs, nthreads=4, rounds=rounds)
+    TH.judge(ctx, res, 'correlation evaluation',
+             {'what': 'thread stress', 'cases': cases})
+
+
 def run_shard(ctx):
+    if ctx.shard % 4 == 3:
+        check_threads(ctx)
     for case in cases_for(ctx):
         check_case(ctx, case)
     for case in long_table_cases(ctx):
@@ -417,6 +456,8 @@ def run_shard(ctx):
 
 
 def replay(ctx, case):
+    if case.get('what') == 'thread stress':
+        return check_threads(ctx, case['cases'], rounds=16)
     if 'klass' in case or 'perm' in case and 'shipped' not in case:
         check_case(ctx, case)
     else:
